@@ -381,6 +381,29 @@ impl DataSpec {
             }
             // symbols below 256 or multiples of 256: in the documented byte placement the 32 high (or the 32 low)
             // bytes of every 64-byte block are zero, block by block
+            9 if self.seed % 2 == 0 => {
+                // 16-symbol column groups: slots 0..16 / 16..32 of every block, low and high bytes separately, zeroed by
+                // one mask for the whole data set (the same columns in every shard) or by a mask per block
+                let col = 1 + rng.below(14);
+                let per_block = rng.below(2) == 0;
+                for _ in 0..k {
+                    let mut s = vec![0u8; b];
+                    rng.fill(&mut s);
+                    for slot in 0..b / 2 {
+                        let m = if per_block { 1 + ((self.seed >> 8) as usize ^ (slot / 32).wrapping_mul(0x9E37)) % 14 } else { col };
+                        let half = (slot % 32) / 16; // 0: slots 0..16, 1: slots 16..32
+                        let mut v = crate::refmodel::slot_get(&s, slot);
+                        if m >> half & 1 == 1 {
+                            v &= 0xFF00;
+                        }
+                        if m >> (2 + half) & 1 == 1 {
+                            v &= 0x00FF;
+                        }
+                        crate::refmodel::slot_set(&mut s, slot, v);
+                    }
+                    out.push(s);
+                }
+            }
             9 => {
                 let which = rng.below(3);
                 for _ in 0..k {
